@@ -262,23 +262,40 @@ func transcript(r *mon.Run, path string) {
 				return pointRep(P.P, z)
 			}
 			sc := func() *Scalar { v, _ := rng.Value(n); return scalarFromBig(v) }
+			// receivers: a fresh object, the zero value, or an object that already holds a point
+			// (the generator, an earlier result in whatever representative) - a routine that
+			// relies on what its destination contains differs between the builds only then
+			rcv := func() *Point {
+				switch rng.Intn(5) {
+				case 0:
+					return new(Point)
+				case 1:
+					return secp256k1.NewIdentityPoint()
+				case 2:
+					return secp256k1.NewGeneratorPoint()
+				case 3:
+					return new(Point).ScalarBaseMult(sc())
+				default:
+					return pt()
+				}
+			}
 			switch i % 16 {
 			case 0:
-				emit("ScalarMult", new(Point).ScalarMult(sc(), pt()).UncompressedBytes())
+				emit("ScalarMult", rcv().ScalarMult(sc(), pt()).UncompressedBytes())
 			case 1:
-				emit("ScalarBaseMult", new(Point).ScalarBaseMult(sc()).CompressedBytes())
+				emit("ScalarBaseMult", rcv().ScalarBaseMult(sc()).CompressedBytes())
 			case 2:
 				l := rng.Intn(6)
 				ss, ps := make([]*Scalar, l), make([]*Point, l)
 				for k := range ss {
 					ss[k], ps[k] = sc(), pt()
 				}
-				emit("MultiScalarMult", new(Point).MultiScalarMult(ss, ps).UncompressedBytes(), new(Point).MultiScalarMultVartime(ss, ps).UncompressedBytes())
+				emit("MultiScalarMult", rcv().MultiScalarMult(ss, ps).UncompressedBytes(), rcv().MultiScalarMultVartime(ss, ps).UncompressedBytes())
 			case 3:
-				emit("DoubleScalarMultBasepointVartime", new(Point).DoubleScalarMultBasepointVartime(sc(), sc(), pt()).UncompressedBytes())
+				emit("DoubleScalarMultBasepointVartime", rcv().DoubleScalarMultBasepointVartime(sc(), sc(), pt()).UncompressedBytes())
 			case 4:
 				a, b := pt(), pt()
-				emit("PointArith", new(Point).Add(a, b).UncompressedBytes(), new(Point).Subtract(a, b).CompressedBytes(), new(Point).Double(a).UncompressedBytes(), []byte{byte(a.Equal(b)), byte(a.IsYOdd()), byte(a.IsIdentity())})
+				emit("PointArith", rcv().Add(a, b).UncompressedBytes(), rcv().Subtract(a, b).CompressedBytes(), rcv().Double(a).UncompressedBytes(), []byte{byte(a.Equal(b)), byte(a.IsYOdd()), byte(a.IsIdentity())})
 			case 5:
 				src, _ := sec1String(rng, pool)
 				p, err := secp256k1.NewPointFromBytes(src)
